@@ -342,7 +342,68 @@ impl Prop for C11 {
 		Ok(())
 	}
 
-	fn enumerate(_tier: Tier, shard: usize, nshards: usize, f: &mut dyn FnMut(Case, bool) -> bool) -> Vec<&'static str> {
+	fn enumerate(tier: Tier, shard: usize, nshards: usize, f: &mut dyn FnMut(Case, bool) -> bool) -> Vec<&'static str> {
+		// LONG histories through one handle: k edits of two sub-components between two edits of the third,
+		// for k around every small counter width (7, 8, 9, 10 bits; thorough: 16 bits)
+		{
+			let mut ks: Vec<usize> = vec![63, 64, 65, 127, 128, 129, 255, 256, 257, 300, 511, 512, 513, 1023, 1024, 1025];
+			if tier == Tier::Thorough {
+				ks.extend([4095, 4096, 4097, 65_535, 65_536, 65_537]);
+			}
+			let mut gi = 0usize;
+			for k in ks {
+				for which in 0..3usize {
+					gi += 1;
+					if gi % nshards != shard {
+						continue;
+					}
+					// `which` is the sub-component edited at both ends; the other two are edited k times in between
+					let outer = |v: &str| match which {
+						0 => AOp::SetPort(Some(v.to_string())),
+						1 => AOp::SetHost(format!("h{v}.example")),
+						_ => AOp::SetUserinfo(Some(format!("u{v}"))),
+					};
+					let inner = |j: usize| match (which, j % 2) {
+						(0, 0) => AOp::SetHost(if j % 4 == 0 { "a.example".into() } else { "bb.example".into() }),
+						(0, _) => AOp::SetUserinfo(Some(if j % 4 == 1 { "user:pw".into() } else { "u".into() })),
+						(1, 0) => AOp::SetPort(Some(if j % 4 == 0 { "80".into() } else { "8080".into() })),
+						(1, _) => AOp::SetUserinfo(if j % 4 == 1 { None } else { Some("user".into()) }),
+						(_, 0) => AOp::SetPort(if j % 4 == 0 { None } else { Some("1".into()) }),
+						(_, _) => AOp::SetHost(if j % 4 == 1 { "[::1]".into() } else { "x".into() }),
+					};
+					let mut ops = vec![outer("80")];
+					ops.extend((0..k).map(inner));
+					ops.push(outer("443"));
+					ops.push(AOp::Read);
+					ops.push(outer("5"));
+					let fam = if gi % 2 == 0 { Fam::Uri } else { Fam::Iri };
+					if !f(Case { fam, full: gi % 3 == 0, initial: "s://user:pw@a.example:8080/p?q#f".into(), ops, derive: vec![] }, true) {
+						return vec![];
+					}
+				}
+			}
+		}
+		// huge sub-components and a huge tail behind the authority
+		{
+			let mut gi = 0usize;
+			for n in gen::huge_sizes(tier).into_iter().chain([(5 << 20) + 1]) {
+				let x = "a".repeat(n);
+				for (initial, ops) in [
+					(format!("s://u@h:1/{x}?{x}"), vec![AOp::SetHost("longer.example".into()), AOp::SetUserinfo(Some("user:pw".into())), AOp::SetPort(Some("8080".into())), AOp::SetUserinfo(None), AOp::SetPort(None)]),
+					("s://u@h:1/p?q#f".to_string(), vec![AOp::SetHost(x.clone()), AOp::SetUserinfo(Some(x.clone())), AOp::SetPort(Some("7".repeat(n))), AOp::SetHost("g".into()), AOp::SetUserinfo(None), AOp::SetPort(None)]),
+					// ... followed on the same thread by an ordinary edit of an ordinary value
+					("//user:pw@example.org:8080/p".to_string(), vec![AOp::SetHost("longer.example.org".into()), AOp::SetUserinfo(Some("someone:secret".into())), AOp::SetPort(Some("65535".into()))]),
+				] {
+					gi += 1;
+					if (gi - 1) / 3 % nshards != shard {
+						continue;
+					}
+					if !f(Case { fam: if gi % 2 == 0 { Fam::Uri } else { Fam::Iri }, full: initial.starts_with("s:"), initial, ops, derive: vec![] }, true) {
+						return vec![];
+					}
+				}
+			}
+		}
 		// small complete product: authority shapes x what follows x ALL call sequences of length <= 2
 		let uis: [Option<&str>; 4] = [None, Some(""), Some("u"), Some("u:p")];
 		let hosts = ["", "h", "[::1]", "1.2.3.4", "longer.example"];
@@ -393,7 +454,7 @@ impl Prop for C11 {
 				}
 			}
 		}
-		vec!["authority shapes (4 user infos x 5 hosts x 3 ports) x 5 tails x all call sequences of length <= 2 over 11 calls"]
+		vec!["histories of k+4 calls through one handle, k = 63..1025 around powers of two (thorough: up to 65 537): one sub-component edited, the other two k times, the first again", "huge (1 MiB+3 .. 5 MiB+1) sub-components and tails, each followed by an ordinary edit on the same thread", "authority shapes (4 user infos x 5 hosts x 3 ports) x 5 tails x all call sequences of length <= 2 over 11 calls"]
 	}
 
 	fn floors(_tier: Tier) -> Vec<(&'static str, u64)> {
